@@ -152,6 +152,17 @@ class JokerPrior:
                 )
                 raise ValueError(msg)
 
+            # The likelihood code looks the priors up in the pymc model by name, so a
+            # variable that is called something else there would be validated here
+            # but not be the one that is used
+            var_name = getattr(pars[name], "name", None)
+            if var_name is not None and var_name != name:
+                msg = (
+                    f"The prior for parameter '{name}' is a variable named "
+                    f"'{var_name}': the variable must have the name of the parameter."
+                )
+                raise ValueError(msg)
+
             equiv_unit = self._all_par_unit_equiv[name]
             par_unit = getattr(pars[name], xu.UNIT_ATTR_NAME)
             # logarithmic units (dex, mag) count as "equivalent" to their physical
